@@ -102,6 +102,17 @@ def syntactic(E):
     bad = [r for r in reads if r in ('options', 'resume_layer', 'resume_number', 'processes', 'layer', 'args', 'defaults')]
     E.syntactic_obligation("Shuffle.global_setup reads only self.seed, the registered tests and the random stream "
                            "(no option, no --layer / resume / -j state)", not bad, 'reads %s' % sorted(bad), props=('C11',))
+    # one random stream serves all layers: which numbers a layer gets depends on the order the layers are visited in, so that
+    # order must be a function of the layer names alone (sorted), never of discovery / registration order
+    loops = [n for n in ast.walk(fdef) if isinstance(n, ast.For) and 'tests_by_layer_name' in ast.unparse(n.iter)]
+    ok_iter = bool(loops) and all(
+        isinstance(n.iter, ast.Call) and isinstance(n.iter.func, ast.Name) and n.iter.func.id == 'sorted'
+        and not n.iter.keywords and len(n.iter.args) == 1
+        and ast.unparse(n.iter.args[0]) in ('self.runner.tests_by_layer_name.items()', 'self.runner.tests_by_layer_name')
+        for n in loops)
+    E.syntactic_obligation("Shuffle.global_setup visits the layers in sorted name order (the layers share one random stream: the "
+                           "permutation of a layer must not depend on the order in which the layers were discovered)",
+                           ok_iter, 'layer loops: %s' % [ast.unparse(n.iter) for n in loops], props=('C11', 'C03'))
     cfg, _, _ = E.find_def('runner.Runner.configure')
     order = [ast.unparse(n.args[0].func).split('.')[-1] for n in ast.walk(cfg)
              if isinstance(n, ast.Call) and ast.unparse(n.func) == 'self.features.append' and n.args
